@@ -62,11 +62,9 @@ def run_job(job):
     for (ep, sched, ok, same) in tr.chunk_results:
         if not same or ok is False:
             res["chunk_mismatch"].append(dict(ep=ep, schedule=sched, completed=ok, same_storage=same, prefix=lines))
-    try:
-        found_all = monitors.run_all(tr)
-    except Exception:
-        res["error"] = "monitor: " + traceback.format_exc()[-800:]
-        found_all = {}
+    mon_errors = {}
+    found_all = monitors.run_all(tr, mon_errors)
+    res["monitor_errors"] = mon_errors
     for pid, found in found_all.items():
         for (idx, msg) in found[:3]:
             res["violations"].setdefault(pid, []).append(dict(index=idx, msg=msg, prefix=lines[:idx + 1],
@@ -163,6 +161,7 @@ def check(pid, tier, seed):
             for c in r["chunk_mismatch"]:
                 chunk_bad.append((r, c))
     errors = [r["error"] for r in results if r["error"]]
+    errors += [e for r in results for e in r.get("monitor_errors", {}).get(pid, [])]
 
     known = load_known()
 
